@@ -1,5 +1,6 @@
 (* Props/C04.v — A failed apply changes nothing.  Statements only. *)
-From RN Require Import Base.Bytes Model.Edits Model.Fs Model.ApplyModel Proofs.ApplyP Proofs.ApplyFaultP.
+From RN Require Import Base.Bytes Model.Edits Model.Fs Model.ApplyModel Proofs.ApplyP Proofs.ApplyFaultP Proofs.RenameP Proofs.RenameP2.
+From RN Require Proofs.Apply2P.
 
 (* The full statement — forall plan, tree, fault position: failure => tree unchanged — is FALSE of
    the faithful model of apply.rs; two machine-checked witnesses: *)
@@ -29,8 +30,41 @@ Theorem C04_ok_iff_no_failure : forall inj p t,
   r_ok (apply_core inj p t) = true <-> r_fail (apply_core inj p t) = None.
 Proof. exact ok_iff_no_failure. Qed.
 
+(* rename-only plans: under the conditions under which the fault-free rename stage is proved to succeed
+   (shape, distinct sources, distinct destinations, fs_ok) and without case-only renames, whatever operation
+   fails — as long as the rollback itself is not disturbed by a second fault — the failed apply leaves the
+   tree EXACTLY as it found it (equality of trees, not only of lookups) *)
+Theorem C04_failed_rename_plan_changes_nothing : forall inj p t,
+  ap_hunks p = [] ->
+  (forall r, In r (ap_renames p) -> shape r) ->
+  NoDup (map ar_path (ap_renames p)) ->
+  (forall r1 r2, In r1 (ap_renames p) -> In r2 (ap_renames p) -> ar_new r1 = ar_new r2 -> ar_path r1 = ar_path r2) ->
+  fs_ok t (ap_renames p) ->
+  (forall r, In r (ap_renames p) -> case_only (ar_path r) (ar_new r) = false) ->
+  r_ok (apply_core inj p t) = false ->
+  (forall n, (length (r_performed (apply_core inj p t)) < n)%nat -> inj n = false) ->
+  r_fs (apply_core inj p t) = t.
+Proof. exact Apply2P.failed_rename_plan_changes_nothing. Qed.
+
+(* plans with content edits: a fault in the rename stage rolls the renames back to the tree the content
+   stage left (the content edits themselves are the recorded finding content_edits_not_rolled_back) *)
+Theorem C04_rename_fault_rolled_back_to_content_stage : forall inj p t s1,
+  first_conflict t (ap_renames p) = None ->
+  content_stage inj (edits_by_file (ap_hunks p)) {| s_fs := t; s_n := 0; s_trace := [] |} = inl s1 ->
+  r_ok (apply_core inj p t) = false ->
+  (forall a b, In (a, b) (stage_steps (sort_renames (ap_renames p)) []) -> case_only a b = false) ->
+  Apply2P.steps_free (stage_steps (sort_renames (ap_renames p)) []) (s_fs s1) ->
+  (forall n, (s_n s1 + length (r_performed (apply_core inj p t)) < n)%nat -> inj n = false) ->
+  r_fs (apply_core inj p t) = s_fs s1.
+Proof. exact Apply2P.apply_rename_fault_rolled_back. Qed.
+
+(* the hypotheses are necessary: Apply2P.RollbackExamples.second_fault_defeats_rollback (a second fault during
+   rollback) and case_only_probe_left_behind (a fault at the unlink of the case-only probe) *)
+
 Print Assumptions C04_refuted_second_file.
 Print Assumptions C04_refuted_stale.
 Print Assumptions C04_fail_before_first_op_changes_nothing.
 Print Assumptions C04_occupied_destination_changes_nothing.
 Print Assumptions C04_ok_iff_no_failure.
+Print Assumptions C04_failed_rename_plan_changes_nothing.
+Print Assumptions C04_rename_fault_rolled_back_to_content_stage.
